@@ -58,6 +58,15 @@ class SymSeq:
     def pyvc_foreach(self, interp, stmt, env):
         return SymEnum(self, False).pyvc_foreach(interp, stmt, env)
 
+    def pyvc_getitem(self, interp, key):
+        if isinstance(key, int):
+            n = self.space.n if z3.is_expr(self.space.n) else z3.IntVal(self.space.n)
+            idx = n + key if key < 0 else z3.IntVal(key)
+            if interp.ctx.branch(V(z3.Or(idx < 0, idx >= n)), "list-index"):
+                raise SymRaise(ExcVal("IndexError", ("list index out of range",), ("LookupError",)))
+            return V(z3.substitute(self.elem, (self.space.u, idx)))
+        raise Undecided("subscript on a symbolic sequence")
+
     def pyvc_getattr(self, interp, name):
         if name in ("values", "tolist", "to_list"):
             return self if name == "values" else (lambda: self)
@@ -111,9 +120,56 @@ class SymEnum:
         self.seq = seq
         self.with_index = with_index
 
+    def loop_with_invariant(self, interp, stmt, env, inv):
+        """classical loop contract: (1) the invariant holds initially, (2) it is preserved by one arbitrary
+        iteration, (3) after the loop the modified variables are arbitrary values satisfying it at i = len."""
+        import ast
+
+        from .interp import PathDone, _Break, _Continue, _Return
+
+        seq, sp = self.seq, self.seq.space
+        ctx = interp.ctx
+        ctx.assume(z3.And(*sp.facts()))
+        n = sp.n if z3.is_expr(sp.n) else z3.IntVal(sp.n)
+        tnames = {x.id for x in _target_names(stmt.target)}
+        modified = sorted({x.id for st in stmt.body for x in ast.walk(st) if isinstance(x, ast.Name) and isinstance(x.ctx, ast.Store)} - tnames)
+        get0 = lambda name: env.get(name, interp)  # noqa: E731
+        ctx.oblige("loop.invariant_holds_initially", inv(get0, z3.IntVal(0), seq), kind="loop")
+
+        def havoc():
+            for name in modified:
+                try:
+                    old = env.get(name, interp)
+                except SymRaise:
+                    continue  # body-local
+                t = to_term(old)
+                srt = z3.RealSort() if z3.is_real(t) or z3.is_int(t) else t.sort()
+                _rebind(env, name, V(z3.Const(fresh_name(f"loop_{name}"), srt)))
+
+        phase = z3.Bool(fresh_name("loop_phase_preservation"))
+        if ctx.branch(V(phase), "loop-contract"):
+            havoc()
+            i = sp.u
+            ctx.assume(inv(lambda nm: env.get(nm, interp), i, seq))
+            item = V(seq.elem)
+            interp.assign(stmt.target, (V(i), item) if self.with_index else item, env)
+            try:
+                interp.exec_block(stmt.body, env)
+            except _Continue:
+                pass
+            except (_Break, _Return):
+                raise Undecided("break/return inside a loop with an invariant")
+            ctx.oblige("loop.invariant_preserved", inv(lambda nm: env.get(nm, interp), i + 1, seq), kind="loop")
+            raise PathDone()
+        havoc()
+        ctx.assume(inv(lambda nm: env.get(nm, interp), n, seq))
+
     def pyvc_foreach(self, interp, stmt, env):
         from .interp import Env, Explorer, PathCtx, InfeasiblePath, _Break, _Continue, _Return
 
+        inv = getattr(interp, "loop_invariants", {}).get(stmt.lineno) or getattr(interp, "loop_invariants", {}).get("*")
+        if inv is not None:
+            return self.loop_with_invariant(interp, stmt, env, inv)
         if stmt.orelse:
             raise Undecided("for/else over a symbolic sequence")
         seq = self.seq
